@@ -1,1 +1,216 @@
-// harnesses for src/sync_condvar (child module, cfg(kani) only)
+// C11 (Condvar half): harnesses over the real src/sync/condvar.rs with the real Mutex underneath.
+// Child module of src/sync/condvar.rs (cfg(kani) only).
+//
+// Real code: Condvar::{new, wait_impl, wait, wait_timeout, notify_one, notify_all, verify},
+// Mutex::{lock, try_lock, unlock}, MutexGuard, SyncBlocker.  Models: the Condvar's waiter queue
+// (crossbeam SegQueue) = FIFO; Blocker::{park, unpark} = one wake token, a timed park may give
+// up at any moment; the Mutex is never contended in these harnesses (its waiter queue is asserted
+// unused), so "wait re-acquires the mutex" is decided through the mutex count.
+use super::*;
+use crate::sync::blocking::Blocker;
+use crate::verif_shim::{np, rt, sa};
+use std::panic as stdpanic;
+
+static mut CV: *const Condvar = std::ptr::null();
+static mut NOTIFY_LEFT: bool = false;
+static mut NOTIFY_ALL: bool = false;
+static mut NOTIFIED_AFTER_ENQUEUE: bool = false;
+static mut W_ENQUEUED: bool = false;
+static mut W2_LEFT: bool = false; // a second waiter that registers behind the root (enqueue only; it stays parked)
+static mut W2: Option<Arc<SyncBlocker>> = None;
+static mut TIMED_OUT: bool = false;
+static mut ROOT_PARKED: bool = false;
+static mut QTAB: [u64; 4] = [0; 4];
+static mut QH: usize = 0;
+static mut QT: usize = 0;
+
+fn is_coroutine_false() -> bool {
+    false
+}
+fn q_push<T>(_q: &SegQueue<T>, v: T) {
+    np::point();
+    assert!(std::mem::size_of::<T>() == 8);
+    unsafe {
+        assert!(QT < 4);
+        QTAB[QT] = std::mem::transmute_copy::<T, u64>(&v);
+        QT += 1;
+        if np::DEPTH == 0 {
+            W_ENQUEUED = true;
+        }
+    }
+    std::mem::forget(v);
+}
+fn q_pop<T>(_q: &SegQueue<T>) -> Option<T> {
+    np::point();
+    unsafe {
+        if QH == QT {
+            None
+        } else {
+            let r = std::mem::transmute_copy::<u64, T>(&QTAB[QH]);
+            QH += 1;
+            Some(r)
+        }
+    }
+}
+fn mq_push_unreachable<T>(_q: &may_queue::mpsc::Queue<T>, v: T) {
+    assert!(false, "model: mutex waiter queue used although the mutex is never contended here");
+    std::mem::forget(v);
+    kani::assume(false);
+}
+fn mq_pop_unreachable<T>(_q: &may_queue::mpsc::Queue<T>) -> Option<T> {
+    assert!(false, "C11: mutex unlock found a waiter count > 1 although nobody waits for the mutex");
+    kani::assume(false);
+    None
+}
+fn run_notify() {
+    unsafe {
+        NOTIFY_LEFT = false;
+        if W_ENQUEUED {
+            NOTIFIED_AFTER_ENQUEUE = true;
+        }
+        W2_QUEUED_AT_NOTIFY = W2.is_some();
+        if NOTIFY_ALL {
+            (*CV).notify_all();
+        } else {
+            (*CV).notify_one();
+        }
+    }
+}
+/// the second waiter registers behind the root (what its wait_impl does first) and stays parked
+fn run_w2_enqueue() {
+    unsafe {
+        W2_LEFT = false;
+        let b = SyncBlocker::current();
+        (*CV).to_wake.push(b.clone());
+        W2 = Some(b);
+    }
+}
+fn hook() {
+    unsafe {
+        if np::DEPTH == 0 {
+            if W2_LEFT && W_ENQUEUED && kani::any() {
+                np::nested(run_w2_enqueue);
+            }
+            if NOTIFY_LEFT && kani::any() {
+                np::nested(run_notify);
+            }
+        }
+    }
+}
+fn unpark_model(b: &Blocker) {
+    np::point();
+    unsafe { *crate::sync::blocking::verif_kani::blocker_token(b) = 1 };
+}
+fn park_model(b: &Blocker, timeout: Option<Duration>) -> Result<(), ParkError> {
+    np::point();
+    let tok = crate::sync::blocking::verif_kani::blocker_token(b);
+    unsafe {
+        if *tok != 0 {
+            *tok = 0;
+            return Ok(());
+        }
+        if timeout.is_some() && kani::any() {
+            TIMED_OUT = true;
+            return Err(ParkError::Timeout);
+        }
+        ROOT_PARKED = true;
+        if W2_LEFT && kani::any() {
+            run_w2_enqueue();
+        }
+        if NOTIFY_LEFT {
+            run_notify();
+        }
+        if *tok != 0 {
+            *tok = 0;
+            return Ok(());
+        }
+        if timeout.is_some() {
+            TIMED_OUT = true;
+            return Err(ParkError::Timeout);
+        }
+        assert!(!NOTIFIED_AFTER_ENQUEUE, "C11: a notification issued while the waiter was enqueued did not wake it (lost notification)");
+        kani::assume(false);
+        Ok(())
+    }
+}
+
+macro_rules! cv_harness {
+    ($(#[$m:meta])* fn $name:ident() $body:block) => {
+        #[kani::proof]
+        $(#[$m])*
+        #[kani::stub(core::sync::atomic::Atomic::<bool>::load, sa::bool_load)]
+        #[kani::stub(core::sync::atomic::Atomic::<bool>::store, sa::bool_store)]
+        #[kani::stub(core::sync::atomic::Atomic::<bool>::swap, sa::bool_swap)]
+        #[kani::stub(crossbeam::queue::SegQueue::push, q_push)]
+        #[kani::stub(crossbeam::queue::SegQueue::pop, q_pop)]
+        #[kani::stub(may_queue::mpsc::Queue::push, mq_push_unreachable)]
+        #[kani::stub(may_queue::mpsc::Queue::pop, mq_pop_unreachable)]
+        #[kani::stub(crate::sync::blocking::Blocker::park, park_model)]
+        #[kani::stub(crate::sync::blocking::Blocker::unpark, unpark_model)]
+        #[kani::stub(crate::coroutine_impl::is_coroutine, is_coroutine_false)]
+        #[kani::stub(std::thread::panicking, np::panicking_stub)]
+        #[kani::stub(stdpanic::catch_unwind, rt::catch_unwind_stub)]
+        #[kani::stub(stdpanic::take_hook, rt::take_hook_stub)]
+        #[kani::stub(stdpanic::set_hook, rt::set_hook_stub)]
+        #[kani::stub(std::sync::Arc::drop_slow, rt::arc_drop_slow_stub)]
+        fn $name() $body
+    };
+}
+
+/// root waiter: wait() or wait_timeout() under the mutex; a notify_one / notify_all and the
+/// registration of a second waiter behind it land at any atomic step (queue operations,
+/// give-up hand-shake flags) or while it is parked
+fn waiter_vs_notify(notify_all: bool) {
+    let cv: &'static Condvar = Box::leak(Box::new(Condvar::new()));
+    let m: &'static Mutex<u8> = Box::leak(Box::new(Mutex::new(0u8)));
+    let timed: bool = kani::any();
+    unsafe {
+        CV = cv;
+        NOTIFY_LEFT = true;
+        NOTIFY_ALL = notify_all;
+        W2_LEFT = kani::any();
+    }
+    let g = m.lock().unwrap();
+    unsafe { np::HOOK = Some(hook) };
+    let timed_out = if timed {
+        let (g2, r) = cv.wait_timeout(g, Duration::from_millis(5)).unwrap();
+        // wait re-acquires the mutex before returning
+        assert!(crate::sync::mutex::verif_kani::mutex_count(m) == 1, "C11: wait_timeout returned without holding the mutex");
+        drop(g2);
+        r.timed_out()
+    } else {
+        let g2 = cv.wait(g).unwrap();
+        assert!(crate::sync::mutex::verif_kani::mutex_count(m) == 1, "C11: wait returned without holding the mutex");
+        drop(g2);
+        false
+    };
+    unsafe {
+        np::HOOK = None;
+        assert!(crate::sync::mutex::verif_kani::mutex_count(m) == 0);
+        if timed_out {
+            assert!(timed && TIMED_OUT, "C11: time-out reported without a time-out");
+        }
+        let w2_registered = W2.is_some();
+        let w2_was_queued_before_notify = w2_registered; // refined below through the token
+        if NOTIFY_LEFT {
+            run_notify();
+        }
+        // a notify_one issued while >= 1 waiter was enqueued wakes at least one: the root, or -
+        // when the root was simultaneously timing out - the second waiter through forwarding
+        if let Some(w2) = W2.as_ref() {
+            let w2_tok = *crate::sync::blocking::verif_kani::sync_blocker_token(w2);
+            if timed_out && NOTIFIED_AFTER_ENQUEUE && !notify_all && W2_QUEUED_AT_NOTIFY {
+                assert!(w2_tok == 1, "C11: the notification consumed by a timing-out waiter was not passed on to the next waiter");
+            }
+            if notify_all && W2_QUEUED_AT_NOTIFY {
+                assert!(w2_tok == 1, "C11: notify_all did not wake a waiter that was enqueued");
+            }
+            let _ = w2_was_queued_before_notify;
+            kani::cover!(timed_out && w2_tok == 1, "timing-out root forwarded the notification to the second waiter");
+        }
+        kani::cover!(!timed_out && ROOT_PARKED, "root parked and was woken by the notification");
+    }
+}
+static mut W2_QUEUED_AT_NOTIFY: bool = false;
+cv_harness! { #[kani::unwind(3)] fn c11_condvar_waiter_vs_notify_one_d1() { waiter_vs_notify(false) } }
+cv_harness! { #[kani::unwind(3)] fn c11_condvar_waiter_vs_notify_all_d1() { waiter_vs_notify(true) } }
